@@ -327,9 +327,10 @@ impl State {
             return;
         }
         let t = en[k];
-        // spin detection: the same thread keeps running, it is the only enabled one, and the
-        // world (all objects + every thread's pending op) recurs
-        if self.last_tid == Some(t) && en.len() == 1 {
+        // spin detection: the same subject (non-harness) thread keeps running, it is the only
+        // enabled one, and the world (all objects + every thread's pending op) recurs; a harness
+        // thread that loops is caught by the step horizon instead
+        if self.last_tid == Some(t) && en.len() == 1 && !self.threads[t].harness {
             let h = self.world_hash();
             let c = self.spin_seen.entry(h).or_insert(0);
             *c += 1;
